@@ -248,7 +248,7 @@ def check(report: common.Report, prop: str):
     thorough = report.tier == 'thorough'
     all_sc = scenarios.all_scenarios(thorough)
     want = ('crash',) if prop == 'C05' else ('power',)
-    jobs = [(i, thorough, want) for i in range(len(all_sc))]
+    jobs = [(i, thorough, want) for i in range(len(all_sc)) if prop != 'C06' or all_sc[i].default_sync]
     traces = common.pmap(run_scenario, jobs)
     for trace in traces:
         if trace['error']:
